@@ -16,6 +16,47 @@ use xml_nom::{helper, ncname, qname, xmlchar};
 
 // -----------------------------------------------------------------------------------------------
 
+/// Deepest nesting of elements, or of parenthesized groups in a content model, that is parsed.
+///
+/// The parser is recursive in both, and so is everything that walks the resulting tree (building
+/// the information set, printing, dropping it), so input that nests without bound would exhaust
+/// the stack of the caller and abort the process. Nothing is matched below this depth, so deeper
+/// input is refused with a parse error.
+pub const MAX_NESTING_DEPTH: usize = 128;
+
+thread_local! {
+    static NESTING_DEPTH: std::cell::Cell<usize> = std::cell::Cell::new(0);
+}
+
+/// One more level of nesting while this value is alive.
+struct Nesting;
+
+impl Nesting {
+    fn enter(input: &str) -> Result<Nesting, nom::Err<nom::error::Error<&str>>> {
+        let nesting = Nesting;
+        let depth = NESTING_DEPTH.with(|v| {
+            v.set(v.get() + 1);
+            v.get()
+        });
+        if depth > MAX_NESTING_DEPTH {
+            Err(nom::Err::Error(nom::error::Error::new(
+                input,
+                ErrorKind::TooLarge,
+            )))
+        } else {
+            Ok(nesting)
+        }
+    }
+}
+
+impl Drop for Nesting {
+    fn drop(&mut self) {
+        NESTING_DEPTH.with(|v| v.set(v.get() - 1));
+    }
+}
+
+// -----------------------------------------------------------------------------------------------
+
 /// prolog element Misc*
 ///
 /// [\[1\] document](https://www.w3.org/TR/2008/REC-xml-20081126/#NT-document)
@@ -372,6 +413,7 @@ fn sd_decl(input: &str) -> IResult<&str, bool> {
 ///
 /// [\[39\] element](https://www.w3.org/TR/2008/REC-xml-20081126/#NT-element)
 pub fn element(input: &str) -> IResult<&str, model::Element<'_>> {
+    let _nesting = Nesting::enter(input)?;
     alt((
         empty_entity_tag,
         map(
@@ -546,6 +588,7 @@ fn cp(input: &str) -> IResult<&str, model::DeclarationContentItem<'_>> {
 ///
 /// Returns `true` with the items of a choice, `false` with the items of a seq.
 fn choice_or_seq(input: &str) -> IResult<&str, (bool, Vec<model::DeclarationContentItem<'_>>)> {
+    let _nesting = Nesting::enter(input)?;
     map(
         delimited(
             tuple((tag("("), multispace0)),
